@@ -6,7 +6,7 @@ From Coq Require Import List NArith ZArith Arith Bool Lia ZifyN ZifyNat ZifyBool
 From RT Require Import Model.Bytes Model.Result Model.Varint Model.KeyCodec Model.Records
   Model.RecCodec Model.Block Model.Crc32 Model.Writer Model.Reader.
 From RT Require Import Proofs.BytesProofs Proofs.CodecProofs Proofs.BlockInitEq Proofs.BlockProofs
-  Proofs.TableProofs Proofs.SeekProofs.
+  Proofs.WriterGuard Proofs.TableProofs Proofs.SeekProofs.
 Import ListNotations.
 Local Open Scope N_scope.
 
@@ -521,7 +521,7 @@ Section RefsW.
 
   Lemma w_add_ost : forall st r st', w_add deflate st r = Ok st' -> rec_typ r <> typ_obj -> ost st' = ost st.
   Proof.
-    intros st r st' H NT. unfold w_add in H.
+    intros st r st' H NT. apply w_add_ok_core in H; unfold w_add_core in H.
     destruct (negb (bytes_ltb (w_last_key st) (rec_key r))); [discriminate|].
     set (st0 := set_last_key st (rec_key r)) in *.
     set (st1 := match w_bw st0 with None => set_bw st0 (Some (new_bw st0 (rec_typ r))) | Some _ => st0 end) in *.
@@ -593,7 +593,7 @@ Section RefsW.
     ((SI_ typ_ref st' [] sec (cur ++ [r]) (L ++ [r]) /\ w_next st' = w_next st) \/
      (exists k, SI_ typ_ref st' [] (sec ++ [k]) [r] (L ++ [r]) /\ ck_recs k = cur /\ w_next st = llen sec)).
   Proof.
-    intros st sec cur L r st' S Hr H. unfold w_add in H.
+    intros st sec cur L r st' S Hr H. apply w_add_ok_core in H; unfold w_add_core in H.
     destruct (bytes_ltb (w_last_key st) (rec_key r)); cbn [negb] in H; [|discriminate].
     set (st0 := set_last_key st (rec_key r)) in *.
     assert (S0 : SI_ typ_ref st0 [] sec cur L) by (eapply SI_frame; [..|exact S]; reflexivity).
